@@ -12,8 +12,17 @@
    cell heights); 9 the auto layout counted border-spacing only for the columns
    in which a cell originates (table narrower than its columns + spacing); 10 a
    cell does not reach the bottom of the last row it spans; 12 the auto layout
-   made the table narrower than its specified width. *)
-From Verif Require Export Base.F32 Base.GoSem Layout.TableGeom Layout.TableGeomSpec.
+   made the table narrower than its specified width; 13 the GridX / Colspan /
+   Rowspan of the cells or the order / header / footer role of the row groups
+   differ from the slot model run on the table STRUCTURE (Box/TableGridPlain.v:
+   nothing is read back from the implementation); 14 the laid-out table does not
+   have the number of columns of the model's grid; 15 the structural facts the
+   harness computed for the tags (grid width, columns with an originating cell)
+   differ from the model's (harness defect); 16 autoTableLayout's column widths or
+   used table width differ from the float32 model run on the preferred widths the
+   implementation computed; 17 those preferred widths satisfy the hypotheses of
+   C13_auto_layout_fills but the columns + total spacing are not the used width. *)
+From Verif Require Export Base.F32 Base.GoSem Layout.TableGeom Layout.TableGeomSpec Box.TableGridPlain Layout.TableGeomAuto.
 From Coq Require Import QArith List ZArith NArith Bool.
 Import ListNotations.
 Open Scope Q_scope.
@@ -31,7 +40,21 @@ Inductive vobs := VO (y bh : Q).
 Inductive vrow := VRow (y h : Q) (cells : list vobs).
 Inductive vgroup := VGroup (y h : Q) (rows : list vrow_in) (obs : list vrow).
 
+(* the table as the document gives it: row groups in document order (kind 0
+   tbody, 1 thead, 2 tfoot), rows, cells with their colspan / rowspan attributes *)
+Inductive gcell_in := GC (colspan_attr rowspan_attr : Z).
+Inductive ggroup_in := GG (kind : N) (rows : list (list gcell_in)).
+(* the table box returned by BuildFormattingStructure: its row groups (role 0
+   body, 1 IsHeader, 2 IsFooter) in the order of its children *)
+Inductive gcell_obs := GO (gridx colspan rowspan : Z).
+Inductive ggroup_obs := GOG (role : N) (rows : list (list gcell_obs)).
+
+(* one column as tableAndColumnsPreferredWidths described it *)
+Inductive acol_in := AC (mn mx pct : Q) (constrained has_cell no_max_content : bool).
+
 Inductive case :=
+| CAuto (width : oq) (avail tmin tmax spacing : Q) (cols : list acol_in) (status : N) (out_cw : list Q) (out_w : Q)
+| CGrid (groups : list ggroup_in) (obs : list ggroup_obs) (auto : bool) (ncols : Z) (claim_width claim_norig : Z)
 | CFixed (w0 : Q) (cols : list oq) (cells : list fcell_in) (bsx : Q) (status : N) (out_cw : list Q) (out_w : Q)
 | CHoriz (x0 bsx : Q) (widths positions : list Q) (rows : list hrow)
 | CVert (y0 bsy : Q) (groups : list vgroup)
@@ -109,7 +132,41 @@ Definition fills_ok (table_w bsx : Q) (widths : list Q) : bool :=
          Qle_bool (total - slack) table_w && Qle_bool table_w (total + slack)
   end.
 
+(* ---------------------------------------------------------------- grid slots from the structure *)
+Definition gkind_of (k : N) : gkind := match k with 1%N => GHeader | 2%N => GFooter | _ => GBody end.
+Definition pgroup_of (g : ggroup_in) : pgroup :=
+  let 'GG k rows := g in
+  mkPG (gkind_of k) (map (map (fun c => let 'GC cs rs := c in cell_of_attrs cs rs)) rows).
+
+(* roles of the ordered groups (build.go:1222-1227: IsHeader / IsFooter) *)
+Definition roles_of (gs : list pgroup) : list N :=
+  let '(h, bodies, f) := split_groups gs None None [] in
+  map (fun _ => 1%N) (opt_list h) ++ map (fun _ => 0%N) bodies ++ map (fun _ => 2%N) (opt_list f).
+
+Definition gcell_eqb (m : pcell) (o : gcell_obs) : bool :=
+  let 'GO gx cs rs := o in
+  Z.eqb (pc_gridx m) gx && Z.eqb (pc_colspan m) cs && Z.eqb (pc_rowspan m) rs.
+
+Definition grid_eqb (roles : list N) (m : list (list prow)) (obs : list ggroup_obs) : bool :=
+  list_eqb2 (fun (rm : N * list prow) (o : ggroup_obs) =>
+               let 'GOG role rows := o in
+               N.eqb (fst rm) role && list_eqb2 (list_eqb2 gcell_eqb) (snd rm) rows)
+            (combine roles m) obs
+  && Nat.eqb (length roles) (length m).
+
+(* columns in which at least one cell originates *)
+Definition origin_columns (m : list (list prow)) : list Z :=
+  nodup Z.eq_dec (flat_map (fun g => flat_map (map pc_gridx) g) m).
+
+Definition acol_of (c : acol_in) : acol := let 'AC mn mx p k h z := c in mkAC mn mx p k h z.
+
+(* hypotheses of C13_auto_layout_fills, on the implementation's preferred widths *)
+Definition auto_hyps (tmin tmax spacing : Q) (cols : list acol) : bool :=
+  Qle_bool (sumQ (map ac_min cols) + spacing) (tmin + slack) && Qle_bool tmin tmax && existsb ac_cell cols.
+
 Inductive model_result :=
+| MAuto (cw : list Q) (w : Q) (hyps : bool)
+| MGrid (roles : list N) (grid : res (list (list prow))) (width norig : Z)
 | MFixed (cw : list Q) (w : Q) | MPanic (site : N) | MFuel
 | MHoriz (positions : list Q) (rows : list (res (list (Z * Q * Q * Q))))
 | MVert (r : res (list (Q * Q * list row_out)))
@@ -117,6 +174,15 @@ Inductive model_result :=
 
 Definition model_out (c : case) : model_result :=
   match c with
+  | CAuto width avail tmin tmax spacing cols _ _ _ =>
+      let '(cw, w) := auto_table_layout f32 (oq_opt width) avail tmin tmax spacing (map acol_of cols) in
+      MAuto cw w (auto_hyps tmin tmax spacing (map acol_of cols))
+  | CGrid groups _ _ _ _ _ =>
+      let gs := map pgroup_of groups in
+      match table_grid gs with
+      | Ok m => MGrid (roles_of gs) (Ok m) (grid_width m) (Z.of_nat (length (origin_columns m)))
+      | r => MGrid (roles_of gs) r 0 0
+      end
   | CFixed w0 cols cells bsx _ _ _ =>
       match fixed_table_layout f32 w0 (map oq_opt cols) (map fcell_of cells) bsx with
       | Ok (cw, w) => MFixed cw w | Panic s => MPanic s | OutOfFuel => MFuel
@@ -131,6 +197,25 @@ Definition model_out (c : case) : model_result :=
 
 Definition check (c : case) : N :=
   match c with
+  | CAuto width avail tmin tmax spacing cols status out_cw out_w =>
+      let acs := map acol_of cols in
+      let '(cw, w) := auto_table_layout f32 (oq_opt width) avail tmin tmax spacing acs in
+      if negb (N.eqb status 0) then 5%N
+      else if negb (qlist_eqb cw out_cw && Qeq_bool w out_w) then 16%N
+      else if match acs with [] => false | _ => auto_hyps tmin tmax spacing acs end &&
+              negb (let total := sumQ out_cw + spacing in
+                    Qle_bool (total - slack) out_w && Qle_bool out_w (total + slack)) then 17%N
+      else 0%N
+  | CGrid groups obs auto ncols claim_width claim_norig =>
+      let gs := map pgroup_of groups in
+      match table_grid gs with
+      | Ok m =>
+          if negb (grid_eqb (roles_of gs) m obs) then 13%N
+          else if auto && (0 <? grid_width m)%Z && (0 <=? ncols)%Z && negb (ncols =? grid_width m)%Z then 14%N
+          else if negb ((claim_width =? grid_width m)%Z && (claim_norig =? Z.of_nat (length (origin_columns m)))%Z) then 15%N
+          else 0%N
+      | _ => 6%N
+      end
   | CFixed w0 cols cells bsx status out_cw out_w =>
       match fixed_table_layout f32 w0 (map oq_opt cols) (map fcell_of cells) bsx, status with
       | Ok (cw, w), 0%N =>
